@@ -12,6 +12,7 @@
 #include <aws/common/common.h>
 #include <aws/common/mutex.h>
 #include <aws/common/system_info.h>
+#include <aws/common/clock.h>
 
 enum { VSP_LOCK = 5, VSP_UNLOCK = 6 };
 
@@ -36,5 +37,8 @@ static inline char **verif_mt_bt_symbols(void *const *frames, size_t n) {
 #define aws_mutex_lock(m) verif_mt_lock(m)
 #define aws_mutex_unlock(m) verif_mt_unlock(m)
 #define aws_backtrace_symbols(f, n) verif_mt_bt_symbols((f), (n))
+/* the timestamp read of s_alloc_tracer_track can be made to fail on command (op `clock_fail k`) */
+int verif_mt_clock_ticks(uint64_t *timestamp);
+#define aws_high_res_clock_get_ticks(t) verif_mt_clock_ticks(t)
 #define aws_default_allocator verif_mt_default_allocator
 #endif
